@@ -26,6 +26,14 @@ def fill_in_let(circuit, override_dict=None):
     return visitor.visit(circuit)
 
 
+def as_index(value):
+    """A qubit index or a slice bound given as a float with an integral value
+    (an override such as 2.0) is that integer, as for a register size."""
+    if isinstance(value, float) and value.is_integer():
+        return int(value)
+    return value
+
+
 class LetFiller(Visitor):
     def __init__(self, override_dict):
         super().__init__()
@@ -106,7 +114,7 @@ class LetFiller(Visitor):
     def visit_NamedQubit(self, qubit):
         """Visit a named qubit that may possibly have its index
         remapped. Doing so will change the name of the qubit."""
-        new_index = self.visit(qubit.alias_index)
+        new_index = as_index(self.visit(qubit.alias_index))
         new_from = self.visit(qubit.alias_from)
         if new_index is qubit.alias_index and new_from is qubit.alias_from:
             return qubit
@@ -139,9 +147,9 @@ class LetFiller(Visitor):
                 new_alias_slice = None
             else:
                 new_alias_slice = slice(
-                    self.visit(reg.alias_slice.start),
-                    self.visit(reg.alias_slice.stop),
-                    self.visit(reg.alias_slice.step),
+                    as_index(self.visit(reg.alias_slice.start)),
+                    as_index(self.visit(reg.alias_slice.stop)),
+                    as_index(self.visit(reg.alias_slice.step)),
                 )
             return Register(
                 reg.name, alias_from=new_alias_from, alias_slice=new_alias_slice
@@ -187,7 +195,7 @@ class RegisterVisitor(LetFiller):
     def visit_NamedQubit(self, qubit):
         """Visit a named qubit that may possibly have its index
         remapped. Doing so will change the name of the qubit."""
-        new_index = self.visit(qubit.alias_index)
+        new_index = as_index(self.visit(qubit.alias_index))
         new_from = self.visit(qubit.alias_from)
         if new_index is qubit.alias_index and new_from is qubit.alias_from:
             return qubit
